@@ -96,7 +96,9 @@ def req_boundary(i: int) -> str:
 
 
 NAMES = ["a", "é", "n m", "x;y", "'", "=", "名", "a*", "𝄞", "", "%", "%2", "a=b; c", "&", "<>", ",", "a\tb",
-         " a ", "a%41", "filename", "a\x00b", "x\x7f", "a:b", "k[]"]
+         " a ", "a%41", "filename", "a\x00b", "x\x7f", "a:b", "k[]",
+         # text that looks like an escape is literal text (only the sequence %22 is outside the domain)
+         "%0A", "%0D", "%0a", "%00", "%2F", "%5C", "%25", "%zz", "%C3%A9", "report%0A2024", "%0D%0A", "%20"]
 TA = ["a", "\r", "\n", "-", " ", "é", '"', "%"]
 BA = [b"a", b"\r", b"\n", b"-", b"\x00", b"\xff"]
 CTYPES = [None, "text/plain", "text/plain; charset=iso-8859-1"]
@@ -833,7 +835,7 @@ def api_extra_cases():
 # ------------------------------------------------------------------ foreign encoders (RFC 2231 parameters)
 # Bodies written the way other clients write them; the suite pins these forms in test_http / test_formparser.
 
-F_NAMES = ["a", "é", "n m", "名", "a;b", "x'y", "%", "a*", "𝄞", "a=b", "é.txt", "a%41", "ab cd"]
+F_NAMES = ["a", "é", "n m", "名", "a;b", "x'y", "%", "a*", "𝄞", "a=b", "é.txt", "a%41", "ab cd", "x%0Ay"]
 F_STYLES = ["plain", "token", "ext-utf8", "ext-UTF-8-lang", "ext-latin1", "cont", "cont-ext", "folded"]
 
 
